@@ -98,8 +98,8 @@ def _candidates() -> dict[str, list[tuple[str, Any]]]:
         "s": [("'x'", "x"), ("1", 1), ("None", None)],
         "b": [("True", True), ("False", False), ("1", 1), ("0", 0)],
         "oi": [("None", None), ("3", 3), ("'x'", "x"), ("False", False)],
-        "t": [("()", ()), ("(1,2)", (1, 2)), ("(1,'x')", (1, "x")), ("[1]", [1]), ("(True,)", (True,))],
-        "ft": [("(1,'x')", (1, "x")), ("(1,)", (1,)), ("(1,'x',2)", (1, "x", 2)), ("('x',1)", ("x", 1))],
+        "t": [("()", ()), ("(1,2)", (1, 2)), ("(1,'x')", (1, "x")), ("[1]", [1]), ("(True,)", (True,)), ("[]", []), ("''", ""), ("None", None), ("0", 0), ("frozenset()", frozenset())],
+        "ft": [("(1,'x')", (1, "x")), ("(1,)", (1,)), ("(1,'x',2)", (1, "x", 2)), ("('x',1)", ("x", 1)), ("()", ()), ("None", None), ("[]", [])],
         "lit": [("'b'", "b"), ("'c'", "c"), ("1", 1)],
         "u": [("'x'", "x"), ("2", 2), ("1.5", 1.5), ("None", None)],
         "a": [("object", 3.25), ("None", None)],
@@ -107,7 +107,7 @@ def _candidates() -> dict[str, list[tuple[str, Any]]]:
         "nc": [("5", 5), ("'x'", "x"), ("None", None), ("True", True)],
         "kid": [("None", None), ("VLeaf", leaf), ("VStr2", VStr2()), ("VSubLeaf", VSubLeaf(v=12)), ("1", 1)],
         "origin": [("NO_ORIGIN", __import__("pyoak.origin", fromlist=["NO_ORIGIN"]).NO_ORIGIN), ("'x'", "x"), ("None", None), ("duck-typed object with .fqn", _Duck())],
-        "kids": [("()", ()), ("(VLeaf,)", (VLeaf(v=13),)), ("(VStr2,)", (VStr2(a="q"),)), ("(VLeaf,None)", (VLeaf(v=14), None)), ("VLeaf", VLeaf(v=15))],
+        "kids": [("()", ()), ("(VLeaf,)", (VLeaf(v=13),)), ("(VStr2,)", (VStr2(a="q"),)), ("(VLeaf,None)", (VLeaf(v=14), None)), ("VLeaf", VLeaf(v=15)), ("[]", []), ("''", "")],
     }
 
 
